@@ -42,7 +42,7 @@ SHARD_WATCHDOG = {"quick": 1500, "thorough": 10800}
 
 
 def gen_cases(tier, seed):
-    n = 120 if tier == "quick" else 800
+    n = 120 if tier == "quick" else 5000
     cases = [{"kind": "enum", "i": i, "seed": seed, "tier": tier} for i in range(n)]
     cases += [{"kind": "child", "i": i, "seed": seed, "tier": tier} for i in range(3 if tier == "quick" else 12)]
     return cases
